@@ -170,6 +170,15 @@ CLAIMED["C10"] = (
     "Trusted: Lean kernel + propext/Classical.choice/Quot.sound; the hash-seed tie (child interpreters) carries the determinism clause; regex and SHA-1 assumptions as for C09; the write path is exercised through DatasourceProvider; harness/c10.py.",
     "DESIGN.md §6 C10")
 
+CLAIMED["C08"] = (
+    "Lean 4 proof over a hand-written executable model of the per-line cleaning pipeline on PROVENANCE-TAGGED text (each character flagged original vs inserted by a substitution); recogniser completeness lemmas for the IPv4 / host / MAC / password scanners; correspondence driving the real Cleaner through clean_content, clean_file and DatasourceProvider.write; independent token-scanner oracle",
+    "Proof (all inputs, substitute tables, configurations; width=False): str.replace and the password re.sub never create or join all-original text (replaceAll_clears, origWindow_infix, clears_preserved, pipeline_shrinks); kept lines are non-matching for any matcher (pattern_redacts, pattern_redacts_content); "
+    "no all-original occurrence survives of any configured keyword, of the short host name, of the FQDN, of a delimited IPv4 address other than loopback, of a delimited host of the domain, or of a MAC with non-[hex:-] neighbours (the *_found recogniser-completeness lemmas + *_no_leak); the first password expression masks exactly the secret for the listed separator families (password_*_partial). "
+    "FALSE today with witness (known findings): a MAC delimited by ':' or '-' (mac_witness); obfuscators that run before Password can rewrite the key 'password' itself. Tied by correspondence only: width-preserving mode, allow list, truncation, the spec_factory exemptions, the regex family with POSIX brackets.",
+    "Trusted: Lean kernel + propext/Classical.choice/Quot.sound; Python re on the cleaner patterns (hand-written recognisers validated per run against the LIVE pattern strings); \\w / \\s tables below U+0250 (checked exhaustively per run); substitute generation as tables read from mapping() (C09); the IPv6 recogniser as a parameter; the provenance reading of 'remains/appears' "
+    "('coincides with an issued substitute' = contains an inserted character); 'accepted notations' = the PwSep families; harness/c08.py.",
+    "DESIGN.md §6 C08")
+
 PENDING_REASON = "check not built yet in this round (planned: DESIGN.md §6); no claim is made until its model, theorems and correspondence run exist"
 
 
